@@ -193,6 +193,7 @@ structure RawNameOk (n : Text) : Prop where
   chars : ∀ c ∈ n, notSemiBr c = true
   ascii : ∀ c ∈ n, c.toNat < 128
   noSlash : ∀ c ∈ n, c ≠ '/'
+  dap4 : n.take 4 = ['d', 'a', 'p', '4'] → ∀ c ∈ n.take 8, isNameRe c = true
   head : ∀ c cs, n = c :: cs → isSpace c = false
 
 theorem RawNameOk.lstrip {n : Text} (h : RawNameOk n) (x : Text) : lstrip (n ++ x) = n ++ x := by
@@ -210,6 +211,7 @@ theorem nameRe_noSlash (c : Char) (h : isNameRe c = true) : c ≠ '/' := by
 theorem NameOk.raw {n : Text} (h : NameOk n) : RawNameOk n :=
   ⟨h.1, fun c hc => nameRe_notSemiBr c (h.2 c hc), fun c hc => nameRe_ascii c (h.2 c hc),
    fun c hc => nameRe_noSlash c (h.2 c hc),
+   fun _ c hc => h.2 c (List.mem_of_mem_take hc),
    fun c cs e => nameRe_not_space c (h.2 c (by rw [e]; simp))⟩
 
 structure FBaseOk (b : FBase) : Prop where
